@@ -53,7 +53,6 @@ def static_scan(paths):
 
 def check(run):
     thorough = run.tier == 'thorough'
-    run.validate_translator(0 if thorough else 400)
     cov = run.evidence['coverage']
     # (1) no_std: the dump was produced by `cargo rustc --lib` with default features; make the attribute explicit
     lib = open(os.path.join(os.environ.get('VERIF_REPO', '/repo'), 'microscpi', 'src', 'lib.rs')).read()
@@ -72,6 +71,15 @@ def check(run):
     cov['static_scan'] = {'functions_scanned': n, 'findings': findings[:10]}
     for fn, line in findings:
         viol.setdefault('STATIC:' + fn, {'rule': 'STATIC', 'what': f'{fn} mentions a heap type or allocator path: {line}', 'input': '', 'function': fn, 'role': 'STATIC:' + fn})
+    # translator validation; when the static facts above already show a heap dependency, an executor that stops at an alloc:: callee
+    # is the expected outcome and must not hide them
+    try:
+        run.validate_translator(0 if thorough else 400)
+    except Inconclusive as e:
+        if not viol:
+            raise
+        run.log(f'[C13] translator validation stopped ({str(e)[:120]}); static findings are reported and confirmed natively')
+        return {'violations': [dict(v, property='C13') for _, v in sorted(viol.items())][:6], 'exhaustive': False}
     # (2) dynamic: representative explorations with the call-resolution monitor (an unknown callee aborts the run)
     records = []
     plans = [('run T1, free-form L=4, heapless response buffer (cap 8)', FREE + ({'entry': 'run', 'L': 4, 'cap': 8},)),
